@@ -1,12 +1,82 @@
+import os, sys
+sys.path.insert(0, os.path.dirname(os.path.dirname(os.path.abspath(__file__))))
+import checklib
+
+SET = "ds/set_impl.go:set."
+OM = "ds/orderedmap/orderedmap.go:OrderedMap."
+
+
+def regen(ctx):
+    # lock skeletons of the anchored methods, regenerated from the working tree (Hive/Gen/C11_Skel.lean)
+    return checklib.regen_skeletons(
+        ctx,
+        [SET + m for m in ("Add", "AddAll", "Delete", "DeleteAll", "Apply", "Compute", "Replace", "apply")] +
+        [OM + m for m in ("Set", "Delete", "Get", "Has", "Clear", "ForEach", "ForEachReverse")],
+        extra_methods=["Set", "Delete", "Get", "Has", "Clear", "ToSlice", "ForEach", "Range", "apply"])
+
+
 SPEC = {
     "lean_props": "Hive.Props.C11",
     "lean_namespace": "Hive.OMap",
+    "regen": regen,
     "driver": "drv_c11",
     "harness": "c11",
     "race": True,
-    "theorems": [],
-    "trusted_base": [],
-    "modelled": [],
-    "manifest": {"text": "", "note": "", "technique": ""},
-    "assumptions": [],
+    "theorems": [
+        "C11_omap_order", "C11_omap_order_step", "C11_omap_refines", "C11_prior_presence",
+        "C11_diffs_exact", "C11_diffs_exact_apply", "C11_diffs_exact_compute", "C11_diffs_nodup", "C11_old_replace_witness",
+        "C11_algebra", "C11_arith_threshold", "C11_arith_threshold_add_sub", "C11_codec_roundtrip", "C11_codec_concrete",
+        "C11_weak_iteration_partial",
+        "C11_deadlock_free", "C11_deadlock_free_methods", "C11_old_deleteall_deadlock_witness",
+        "C11_apply_atomic", "C11_single_linearizable", "C11_lincheck_sound",
+        "C11_skeleton_set_Add", "C11_skeleton_set_AddAll", "C11_skeleton_set_Delete", "C11_skeleton_set_DeleteAll",
+        "C11_skeleton_set_Apply", "C11_skeleton_set_Compute", "C11_skeleton_set_Replace", "C11_skeleton_set_apply",
+        "C11_skeleton_OrderedMap_Set", "C11_skeleton_OrderedMap_Delete", "C11_skeleton_OrderedMap_Get",
+        "C11_skeleton_OrderedMap_Has", "C11_skeleton_OrderedMap_Clear", "C11_skeleton_OrderedMap_ForEach",
+        "C11_skeleton_OrderedMap_ForEachReverse",
+    ],
+    "trusted_base": [
+        "hand-written models Hive/Model/OMap.lean (abstract ordered map, ds.Set, SetMutations, SetArithmetic, byte format), "
+        "Hive/Model/OMapPtr.lean (hash index + doubly linked chain) and Hive/Model/OMapConc.lean (lock scripts, method-level "
+        "protocol, RWMutex semantics), tied to the working tree by line-by-line differential execution (harness/c11), by the "
+        "regenerated lock skeletons (Hive/Gen/C11_Skel.lean + the harness's own go/ast extraction) and by recorded concurrent "
+        "histories decided by the Lean linearizability checker",
+        "sync.RWMutex semantics as written in lockStep (permissive for reachability, writer-preference for blocking)",
+        "Go toolchain, compiled Lean driver, serix encoding of uint16/uint8/struct{}",
+    ],
+    "modelled": [
+        "orderedmap.OrderedMap Set/Get/Has/Delete/Clear/Head/Tail/Size/IsEmpty/ForEach/ForEachReverse/Clone at pointer level (elements, prev/next, head/tail, dictionary, size)",
+        "ds.Set Add/Delete/Has/AddAll/DeleteAll/Apply/Compute/Replace/HasAll/Equals/Intersect/Filter/Clone/Is/Any/ToSlice/Iterator/Size/IsEmpty/Clear/Encode/Decode; SetMutations; SetArithmetic Add/Subtract/collectors",
+        "SerializableOrderedMap.Encode/Decode byte format with abstract element codecs (concrete: uint16 keys, uint8 / struct{} values)",
+        "NOT modelled: nil receivers; arguments aliased with the receiver (s.AddAll(s), s.Replace(s)); String(); ShrinkingMap shrinking; "
+        "uint32 truncation of Size() beyond 2^32 entries is modelled but not exercised; the unlocked read of currentEntry.value in ForEach "
+        "(a data race with a concurrent Set of the same key on maps with non-empty values) is outside the property",
+        "weak iteration is proved for ForEach; ForEachReverse only through the correspondence run and its oracle",
+    ],
+    "manifest": {
+        "text": "Lean 4 theorems over every operation history: the ordered map's iteration order is the first-insertion order of the live keys "
+                "(C11_omap_order, by refinement from a pointer-level model of the hash index + doubly linked chain, C11_omap_refines), "
+                "Set/Add/Delete report prior presence (C11_prior_presence), AddAll/DeleteAll/Replace/Apply/Compute return exactly the membership "
+                "changes incl. the fold law for overlapping mutations (C11_diffs_exact, C11_diffs_exact_apply), the set algebra matches its "
+                "mathematical definition (C11_algebra), SetArithmetic emits exactly the changes of the threshold set for any collector sequence "
+                "(C11_arith_threshold), Encode/Decode round-trips contents and order for any prefix-free element codec (C11_codec_roundtrip), a "
+                "ForEach interleaved with arbitrary writers visits every key live throughout exactly once in order (C11_weak_iteration_partial). "
+                "Protocol level, for any number of goroutines and any schedule: no deadlock for well-formed lock scripts and all Set methods are "
+                "well-formed (C11_deadlock_free, C11_deadlock_free_methods; the pre-fix DeleteAll deadlock is C11_old_deleteall_deadlock_witness), "
+                "Apply/Compute/Replace exclude all other mutators (C11_apply_atomic), Add/Delete/Has/Clear are linearizable "
+                "(C11_single_linearizable), the history checker is sound (C11_lincheck_sound). Tie on every run: differential execution of "
+                "~5000 random 40-op histories on the real OrderedMap/Set/SetArithmetic incl. serix Encode/Decode, forced "
+                "'argument ForEach parked while a writer is pending' schedules, multi-goroutine stress histories decided by the Lean "
+                "linearizability checker and an independent Go oracle, regenerated lock skeletons (C11_skeleton_*).",
+        "note": "Trusted: Lean kernel; the three hand-written models (tie = differential execution + lock skeletons + recorded histories); "
+                "RWMutex semantics as modelled; ForEachReverse weak iteration and self-aliased arguments only tested, not proved. Two defects of the "
+                "unchanged tree were fixed (DeleteAll re-entrant RLock deadlock, Replace returning all previous elements).",
+        "technique": "Lean 4 refinement + invariant proofs over all histories / all schedules, differential correspondence, "
+                     "linearizability checking of recorded histories",
+    },
+    "assumptions": [
+        "arguments of type ReadableSet/SetMutations are distinct objects from the receiver and behave as sets (their ForEach yields each element once)",
+        "callbacks passed to Compute/ForEach/Filter do not call methods of the same set that take applyMutex",
+        "element codecs are total on their domain and prefix-free (hypothesis of C11_codec_roundtrip; proved for the concrete codecs in C11_codec_concrete)",
+    ],
 }
